@@ -36,7 +36,8 @@ def _spawn(job: dict, workdir: str, tag: str, timeout: float) -> tuple[list[dict
     env = dict(os.environ)
     env["PYTHONPATH"] = HERE + (":" + env["PYTHONPATH"] if env.get("PYTHONPATH") else "")
     env.setdefault("PYTHONHASHSEED", "0")
-    env["PYTHONDONTWRITEBYTECODE"] = "1"
+    env.pop("PYTHONDONTWRITEBYTECODE", None)
+    env.setdefault("PYTHONPYCACHEPREFIX", os.path.join(HERE, ".work", "pycache"))
     for var in ("OPENBLAS_NUM_THREADS", "OMP_NUM_THREADS", "MKL_NUM_THREADS", "NUMEXPR_NUM_THREADS"):
         env.setdefault(var, "1")
     problem = None
@@ -129,21 +130,27 @@ def _check(pid, mod, args, workdir, t0) -> int:
     fixed_entries = [e for e in kf.for_property(pid) if e.get("status") == "fixed"]
 
     jobs = []
-    # pinned witnesses first
+    # pinned witnesses first: one worker per family, all pins of that family in it
+    pins_by_family: dict[str, list] = {}
     for i, e in enumerate(known_entries):
         w = e.get("witness")
         if not w:
             continue
-        fam = mod.FAMILIES[w["family"]]
-        jobs.append(
-            (
-                "pin",
-                i,
-                {"pid": pid, "mode": "replay", "family": fam.name, "case": w["case"]},
-                f"pin{i}",
-                fam.case_timeout * 2 + 30,
+        pins_by_family.setdefault(w["family"], []).append({"ref": i, "case": w["case"]})
+    for fname, pins in pins_by_family.items():
+        fam = mod.FAMILIES[fname]
+        chunk = max(1, -(-len(pins) // max(1, min(4, args.jobs // 2))))
+        for c in range(0, len(pins), chunk):
+            part = pins[c : c + chunk]
+            jobs.append(
+                (
+                    "pin",
+                    fname,
+                    {"pid": pid, "mode": "pins", "family": fam.name, "pins": part},
+                    f"pin-{fname}-{c}",
+                    fam.case_timeout * 2 * len(part) + 60,
+                )
             )
-        )
     # exploration shards
     n_samples_each = 2
     total_cases = sum(budget.values())
@@ -167,6 +174,7 @@ def _check(pid, mod, args, workdir, t0) -> int:
                         "start": start,
                         "end": end,
                         "samples": n_samples_each if start == 0 else 0,
+                        "no_shrink_keys": [list(kf.key_of(e)) for e in known_entries],
                     },
                     f"{fname}-{start}",
                     max(300.0, (end - start) * fam.case_timeout * 0.25 + 120),
@@ -183,7 +191,8 @@ def _check(pid, mod, args, workdir, t0) -> int:
             kind, ref = futs[fut]
             recs, problem = fut.result()
             if kind == "pin":
-                pin_results[ref] = recs
+                for r in recs:
+                    pin_results.setdefault(r.get("pin", -1), []).append(r)
                 if problem:
                     shard_problems.append(f"pin {ref}: {problem}")
             else:
@@ -349,7 +358,7 @@ def _check(pid, mod, args, workdir, t0) -> int:
     if harness_errors:
         print(f"  HARNESS ERRORS: {harness_errors}", sets.get("harness_error_text", [""])[:1])
     if exit_code == 0:
-        must = getattr(mod, "MUST_OBSERVE", [])
+        must = [] if (args.families or args.scale < 0.05) else getattr(mod, "MUST_OBSERVE", [])
         missing = [m for m in must if obs.get(m, 0) <= 0]
         if evaluations == 0 or held == 0 and not known_hits or missing or harness_errors > evaluations // 2:
             print(f"INCONCLUSIVE property={pid} deciding monitors observed nothing (missing={missing})")
